@@ -30,6 +30,6 @@ def one(meta_path):
         shutil.rmtree(tmp, ignore_errors=True)
 
 metas = sorted(glob.glob("/verif/seeded/*/meta.json"))
-with ThreadPoolExecutor(max_workers=8) as ex:
+with ThreadPoolExecutor(max_workers=int(os.environ.get("JOBS","8"))) as ex:
     for name, caught in ex.map(one, metas):
         print(name, "DOES NOT APPLY" if caught is None else json.dumps(caught))
